@@ -95,7 +95,8 @@ def main(chk):
         'executed from MIR on families of client sessions (simple / extended / malformed / truncated / paused, symbolic names, kinds, codes, '
         'backend statuses): on every explored exit of handle() -- Ok, `?` error returns, panics (unwinding) -- every connection guard that was '
         'checked out has been dropped, so the slot returns to bb8.  That bb8 itself never exceeds max_size and serves waiters FIFO is assumed '
-        '(its semaphore under concurrent tasks is outside what the technique encodes).')
+        '(its semaphore under concurrent tasks is outside what the technique encodes).  One bb8 pool per (pool, user, server) is what makes max_size a bound: '
+        'ConnectionPool::from_config keeps an unchanged pool across a reload, also when auth_query is configured (O2-rebuild).')
     chk.assumptions += [
         'bb8: at most max_size connections per Pool, a dropped PooledConnection frees its slot, waiters are served (library contract, not encoded)',
         'one client session at a time; concurrency between clients is bb8\'s and Tokio\'s (outside the claim)',
